@@ -37,6 +37,13 @@ Theorem C04_wait_ok : forall c s fc, p_wftmax (c_p c) <> 0 -> fc_status fc = FS_
   wft_counter s' = wft_counter s + 1 /\ t_start (timer_rx_fc s') = Some (now s).
 Proof. exact wait_accepted. Qed.
 
+(** The Wait budget belongs to the message: whenever no First Frame is awaiting its Flow Control and no block is being transmitted
+    (idle, or the first frame held by the rate limiter) the count of accepted Wait frames is zero, so the abort of C04_wait_max needs
+    more than wftmax Wait frames accepted since the First Frame of the very message that is abandoned. *)
+Theorem C04_wait_count_per_message : forall c s, reachable c s ->
+  tx_state s <> TxWaitFC -> tx_state s <> TxTransmitCF -> wft_counter s = 0.
+Proof. exact wait_count_per_message. Qed.
+
 (** The Consecutive Frame that completes the granted block puts the sender back to waiting. *)
 Theorem C04_block : forall c a s evs rbs,
   tx_state s = TxTransmitCF -> remote_bs s = Some rbs -> rbs <> 0 ->
@@ -86,6 +93,7 @@ Print Assumptions C04_overflow.
 Print Assumptions C04_wait0.
 Print Assumptions C04_wait_max.
 Print Assumptions C04_wait_ok.
+Print Assumptions C04_wait_count_per_message.
 Print Assumptions C04_block.
 Print Assumptions C04_block_pass.
 Print Assumptions C04_block_run.
